@@ -76,6 +76,8 @@ pub fn configs(prop: &str, thorough: bool) -> Vec<SimConfig> {
                 ("port", vec!["http://a", "http://a:8080"]),
                 ("case-host", vec!["http://a", "http://A"]),
                 ("host", vec!["http://a", "http://b"]),
+                ("upper-case-ports", vec!["http://A:8080", "http://A:9090"]),
+                ("upper-case-default-port", vec!["http://A", "http://A:8080"]),
             ] {
                 let mut c = full(&format!("n2-{name}"), 2, true);
                 c.origins = origins(&os);
@@ -119,7 +121,27 @@ pub fn configs(prop: &str, thorough: bool) -> Vec<SimConfig> {
             c.idle_timeout = Some(1);
             c.max_ticks = 1;
             v.push(c);
+            // several idle entries of different ages with some of them closed: request completion is
+            // abbreviated to one macro step so that these histories are shallow
+            let mut c = full("n3-macro-idle-ages", 3, true);
+            c.idle_timeout = Some(1);
+            c.max_ticks = 2;
+            c.allow_h2 = false;
+            c.ev_cancel = false;
+            c.ev_dial_fail = false;
+            c.macro_finish = true;
+            c.max_depth = Some(if thorough { 18 } else { 15 });
+            v.push(c);
             if thorough {
+                let mut c = full("n4-macro-idle-ages", 4, true);
+                c.idle_timeout = Some(1);
+                c.max_ticks = 2;
+                c.allow_h2 = false;
+                c.ev_cancel = false;
+                c.ev_dial_fail = false;
+                c.macro_finish = true;
+                c.max_depth = Some(16);
+                v.push(c);
                 let mut c = full("n2-preempt-false-ticks", 2, false);
                 c.idle_timeout = Some(1);
                 c.max_ticks = 2;
@@ -212,7 +234,7 @@ fn replay_json(cfg: &SimConfig, hist: &[Ev]) -> serde_json::Value {
             "name": cfg.name, "origins": cfg.origins, "max_requests": cfg.max_requests, "allow_h1": cfg.allow_h1, "allow_h2": cfg.allow_h2,
             "continue_after_preemption": cfg.continue_after_preemption, "max_idle_per_host": cfg.max_idle_per_host, "idle_timeout": cfg.idle_timeout,
             "split_handshake": cfg.split_handshake, "strict_is_open": cfg.strict_is_open, "ev_cancel": cfg.ev_cancel, "ev_dial_fail": cfg.ev_dial_fail,
-            "ev_close": cfg.ev_close, "ev_upgrade": cfg.ev_upgrade, "max_ticks": cfg.max_ticks, "burst": cfg.burst, "max_depth": cfg.max_depth,
+            "ev_close": cfg.ev_close, "ev_upgrade": cfg.ev_upgrade, "max_ticks": cfg.max_ticks, "burst": cfg.burst, "max_depth": cfg.max_depth, "macro_finish": cfg.macro_finish,
         },
         "history": hist.iter().map(|e| e.text()).collect::<Vec<_>>(),
     })
@@ -239,6 +261,7 @@ fn cfg_from_json(v: &serde_json::Value) -> Option<SimConfig> {
         max_ticks: c.get("max_ticks")?.as_u64()? as usize,
         burst: b("burst"),
         max_depth: c.get("max_depth").and_then(|x| x.as_u64()).map(|x| x as usize),
+        macro_finish: b("macro_finish"),
     })
 }
 
